@@ -92,6 +92,13 @@ var arena2 = func() []byte {
 // chosen alignment, with canary bytes (0xFF = invalid for every predicate)
 // on both sides so that an over-read changes the answer.
 func place(ar []byte, a []byte, off int, canary byte) []byte {
+	if need := 64 + off + len(a) + 64; need > len(ar) {
+		// inputs longer than the fixed arena get an aligned arena of their own
+		raw := make([]byte, need+64)
+		p := uintptr(unsafe.Pointer(&raw[0]))
+		pad := int((64 - p%64) % 64)
+		ar = raw[pad : pad+need]
+	}
 	lo := 64 + off
 	for i := lo - 40; i < lo+len(a)+40 && i < len(ar); i++ {
 		if i >= 0 {
@@ -226,6 +233,50 @@ func TestSweepValid(t *testing.T) {
 	evid.Enumerated("SweepValid", 1, 1)
 	evid.SetExhaustive(true)
 	evid.Sample(Case{Fn: "ValidPrint", A: []byte("abcdefghijklmnopqrstuvwx\x7fz"), Off: 5})
+}
+
+// TestLongValid: inputs around the sizes at which a blocked or chunked implementation changes gear (powers of two
+// from 256 bytes to 256 KiB and their multiples), one deviating byte placed at the start, in the middle, and at
+// each of the last 70 positions (the tail of the last block).
+func TestLongValid(t *testing.T) {
+	y := &tally{t: t, name: "LongValid"}
+	shard, n := evid.Shard(), evid.NShards()
+	var lens []int
+	for _, base := range []int{256, 1024, 4096, 32768, 65536, 131072, 196608, 262144} {
+		for _, d := range []int{-1, 0, 1, 17} {
+			lens = append(lens, base+d)
+		}
+	}
+	devs := []byte{0x1f, 0x7f, 0x80, 0xff}
+	for li, L := range lens {
+		if li%n != shard {
+			continue
+		}
+		buf := make([]byte, L)
+		for i := range buf {
+			buf[i] = 'a' + byte(i%26)
+		}
+		for _, fn := range unaryFns {
+			y.run(Case{Fn: fn, A: buf})
+		}
+		positions := []int{0, 1, L / 2, L/2 + 1}
+		for k := 1; k <= 70 && k <= L; k++ {
+			positions = append(positions, L-k)
+		}
+		for _, pos := range positions {
+			old := buf[pos]
+			for _, v := range devs {
+				buf[pos] = v
+				for _, fn := range unaryFns {
+					y.run(Case{Fn: fn, A: buf})
+				}
+			}
+			buf[pos] = old
+		}
+		evid.Label("valid.long-input")
+	}
+	evid.Eval(y.evals)
+	evid.Enumerated("LongValid", 1, 1)
 }
 
 var foldLens = []int{1, 2, 7, 8, 9, 15, 16, 17, 31, 32, 33, 63, 64, 65, 127, 128, 129}
